@@ -103,6 +103,18 @@ func drawCfg(r *simkit.Run) cfg {
 	c.CompactW = tp.Intn(3)
 	c.ConfChange = tp.Intn(3) == 1
 	c.OwnPayloads = tp.Intn(2) == 1
+	if c.N >= 5 && !c.NoFaults {
+		c.Relay = tp.Intn(3) == 1 // directed skeleton, see relay_test.go
+	}
+	if c.Relay {
+		if c.Ops < 40 {
+			c.Ops = 40 // the skeleton needs the majority to keep committing while its stages unfold
+		}
+		// only manual compaction (production default: 10000 entries / 30 s): with a
+		// trigger of a few entries the receiver replaces the received snapshot by
+		// one of its own before it can be asked to serve it
+		c.Trigger, c.CheckInterval = 1000000, time.Second
+	}
 	c.MaxSteps = 250 + c.Ops*28
 	if c.MaxSteps > 1500 {
 		c.MaxSteps = 1500
@@ -117,7 +129,7 @@ func runWorld(t *testing.T, r *simkit.Run) {
 		"partition": c.FPartition, "crash": c.FCrash, "stall": c.FStall, "gate": c.Gate, "db": c.DB, "crash_pct": c.CrashPct, "sm_batch": c.SMBatch,
 		"sm_durable": c.SMDurable, "snap_digest": c.SnapDigest, "election_tick": c.ElectionTick, "heartbeat_tick": c.HeartbeatTick, "prevote": c.PreVote,
 		"checkquorum": c.CheckQuorum, "max_size_per_msg": c.MaxSizePerMsg, "max_inflight": c.MaxInflight, "workers": c.Workers, "max_applying": c.MaxApplying,
-		"compact_trigger": c.Trigger, "campaign_hint": c.CampaignHint, "confchange": c.ConfChange, "own_payloads": c.OwnPayloads}
+		"compact_trigger": c.Trigger, "campaign_hint": c.CampaignHint, "confchange": c.ConfChange, "own_payloads": c.OwnPayloads, "relay_skeleton": c.Relay}
 	var tmpRoot string
 	if c.DB {
 		base := "" // raft snapshot chunk directories are real files (fsync included): prefer a RAM disk
@@ -138,6 +150,7 @@ func runWorld(t *testing.T, r *simkit.Run) {
 	simkit.Bubble(t, r, func() {
 		w := &world{r: r, sw: simkit.NewWorld(r), cfg: c, salt: salt, start: time.Now(), cut: map[[2]int]bool{},
 			probes: map[string]int{}, faultsCnt: map[string]int{}, outstanding: map[int]*propOp{}, opsLeft: c.Ops, faultBudget: c.FaultBudget, tmpRoot: tmpRoot}
+		w.relay.slot = 1
 		raft.SimRandIntn = w.randIntn
 		defer w.teardown()
 		w.nodes = make([]*node, c.N+1)
@@ -415,6 +428,27 @@ func (w *world) invariant() {
 					}
 				}
 			}
+			// A replica whose applied index reached i holds every command at or below i
+			// (the state machine content at the applied index equals the reference prefix).
+			rp := n.reps[m.id]
+			w.mu.Lock()
+			if rp.verified > st.AppliedIndex {
+				rp.verified = st.AppliedIndex
+			}
+			for j := rp.verified + 1; j <= st.AppliedIndex; j++ {
+				cr, known := m.canon[j]
+				if !known {
+					continue
+				}
+				if got, has := rp.sm.at(j); !has || got != cr {
+					w.mu.Unlock()
+					w.fail("applied-index-without-command", "", fmt.Sprintf("n%d/s%d reports applied index %d but its state machine holds (present=%v term %d %q) at index %d where (term %d %q) was applied",
+						i, m.id, st.AppliedIndex, has, got.term, got.data, j, cr.term, cr.data))
+					return
+				}
+			}
+			rp.verified = st.AppliedIndex
+			w.mu.Unlock()
 			lag := int64(m.maxCanon) - int64(st.AppliedIndex)
 			if lag > 3 {
 				lag = 3
@@ -594,13 +628,24 @@ func (w *world) collect() []simkit.Action {
 			pw := 1
 			if w.leaderOf(slot) != 0 {
 				pw = 10
+				if c.Relay && w.relay.stage >= 2 && w.relay.stage <= 4 {
+					pw = 3 // keep operations (and the receiver's own next compaction) for the later stages
+				}
 			}
 			acts = append(acts, simkit.Action{Prio: 1, Key: fmt.Sprintf("propose s%d", s), Weight: pw, Do: func() { w.propose(slot, false) }})
 		}
 	}
 	if w.opsLeft > 0 && w.acks > 0 {
 		if c.TransferW > 0 && w.transfers < 6 {
-			acts = append(acts, simkit.Action{Prio: 3, Key: "transfer", Weight: c.TransferW, Do: w.transfer})
+			tw := c.TransferW
+			w.mu.Lock()
+			for _, m := range w.slots {
+				if m.restoredLive != 0 {
+					tw = c.TransferW + 3 // a snapshot receiver exists: make it lead while its received snapshot is what it would serve
+				}
+			}
+			w.mu.Unlock()
+			acts = append(acts, simkit.Action{Prio: 3, Key: "transfer", Weight: tw, Do: w.transfer})
 		}
 		if c.CompactW > 0 && w.compacts < 8 {
 			acts = append(acts, simkit.Action{Prio: 3, Key: "compact", Weight: c.CompactW, Do: w.compact})
@@ -632,6 +677,7 @@ func (w *world) collect() []simkit.Action {
 	// environment faults
 	if faults {
 		acts = append(acts, w.faultActions()...)
+		acts = append(acts, w.relayActions()...)
 	}
 	return acts
 }
@@ -641,10 +687,46 @@ func (w *world) faultActions() []simkit.Action {
 	var acts []simkit.Action
 	budget := w.faultBudget > 0 && w.opsLeft > 0
 	if c.FPartition {
-		if len(w.cut) > 0 {
+		// (while the relay skeleton holds two laggards apart it does its own healing)
+		if len(w.cut) > 0 && !(c.Relay && w.relay.stage >= 1 && w.relay.stage <= 4) {
 			acts = append(acts, simkit.Action{Prio: 4, Key: "heal", Weight: 2, Do: func() {
 				w.mu.Lock()
 				w.cut = map[[2]int]bool{}
+				w.mu.Unlock()
+			}})
+			// heal one node at a time: lagging replicas rejoin one after the other, so a
+			// replica that itself caught up by snapshot may have to serve the next one
+			acts = append(acts, simkit.Action{Prio: 4, Key: "heal-node", Weight: 2, Do: func() {
+				w.mu.Lock()
+				deg := map[int]int{}
+				for k := range w.cut {
+					deg[k[0]]++
+					deg[k[1]]++
+				}
+				w.mu.Unlock()
+				best := 0
+				for i := 1; i <= c.N; i++ {
+					if deg[i] > best {
+						best = deg[i]
+					}
+				}
+				var cand []int // the most isolated nodes
+				for i := 1; i <= c.N; i++ {
+					if best > 0 && deg[i] == best {
+						cand = append(cand, i)
+					}
+				}
+				if len(cand) == 0 {
+					return
+				}
+				x := cand[w.r.Tape.Intn(len(cand))]
+				w.r.Logf("  HEAL n%d", x)
+				w.mu.Lock()
+				for k := range w.cut {
+					if k[0] == x || k[1] == x {
+						delete(w.cut, k)
+					}
+				}
 				w.mu.Unlock()
 			}})
 		}
@@ -653,6 +735,27 @@ func (w *world) faultActions() []simkit.Action {
 				x := 1 + w.r.Tape.Intn(c.N)
 				w.isolate(x, "partition_isolate_node")
 			}})
+			if c.N >= 5 {
+				// a minority of two followers falls behind together; healed one at a time
+				// (heal-node) the first to return may have to serve the second
+				acts = append(acts, simkit.Action{Prio: 6, Key: "partition isolate-two", Weight: 2, Do: func() {
+					s := multiraft.SlotID(1 + w.r.Tape.Intn(c.Slots))
+					l := w.leaderOf(s)
+					var cand []int
+					for i := 1; i <= c.N; i++ {
+						if i != l {
+							cand = append(cand, i)
+						}
+					}
+					a := cand[w.r.Tape.Intn(len(cand))]
+					b := cand[w.r.Tape.Intn(len(cand))]
+					w.isolate(a, "partition_isolate_node")
+					if b != a {
+						w.faultBudget++ // one fault, two nodes
+						w.isolate(b, "partition_isolate_node")
+					}
+				}})
+			}
 			acts = append(acts, simkit.Action{Prio: 6, Key: "partition isolate-leader", Weight: 1, Do: func() {
 				s := multiraft.SlotID(1 + w.r.Tape.Intn(c.Slots))
 				if l := w.leaderOf(s); l != 0 {
@@ -751,7 +854,10 @@ func (w *world) restart(i int) {
 	w.r.Fault("restart")
 	w.r.Logf("  RESTART n%d", i)
 	if err := w.startNode(w.nodes[i], false); err != nil {
-		w.r.Infra("restart n%d: %v", i, err)
+		// Reopening a replica over the durable state its earlier incarnation wrote is
+		// behaviour of the code under test (raftlog.Open, InitialState, OpenSlot,
+		// Restore): a replica that cannot come back has lost what it acknowledged.
+		w.fail("restart-failed", "", fmt.Sprintf("n%d cannot be reopened over its own durable state: %v", i, err))
 	}
 }
 
@@ -804,6 +910,16 @@ func (w *world) propose(slot multiraft.SlotID, final bool) {
 func (w *world) transfer() {
 	w.transfers++
 	slot := multiraft.SlotID(1 + w.r.Tape.Intn(w.cfg.Slots))
+	w.mu.Lock()
+	if w.model(slot).restoredLive == 0 {
+		for _, m := range w.slots {
+			if m.restoredLive != 0 {
+				slot = m.id
+				break
+			}
+		}
+	}
+	w.mu.Unlock()
 	l := w.leaderOf(slot)
 	if l == 0 {
 		return
@@ -811,6 +927,14 @@ func (w *world) transfer() {
 	target := 1 + w.r.Tape.Intn(w.cfg.N)
 	if target == l {
 		target = target%w.cfg.N + 1
+	}
+	// Prefer a replica that caught up by installing a snapshot: once it leads it
+	// serves lagging members from the snapshot it received, not one it produced.
+	w.mu.Lock()
+	restored := w.model(slot).restoredLive
+	w.mu.Unlock()
+	if restored != 0 && restored != l && w.nodes[restored].up.Load() && w.r.Tape.Intn(3) != 0 {
+		target = restored
 	}
 	n := w.nodes[l]
 	st, _ := n.rt.Status(slot)
@@ -864,7 +988,7 @@ func (w *world) finalPhase() {
 			n.setStall(false)
 		}
 	}
-	if r.InfraErr != "" {
+	if r.InfraErr != "" || r.Failed() {
 		return
 	}
 	electionTO := time.Duration(w.cfg.ElectionTick) * tickInterval
